@@ -378,7 +378,7 @@ Theorem own_nodes_mdvd : forall langs, mdvd_dom langs = true ->
   detect_format (mdvd_write langs) = Ok (Some R_MDVD).
 Proof.
   intros langs H. unfold mdvd_dom in H. apply andb_true_iff in H. destruct H as [H Hfree].
-  apply andb_true_iff in H. destruct H as [Hne Ht].
+  apply andb_true_iff in H. destruct H as [H _]. apply andb_true_iff in H. destruct H as [Hne Ht].
   unfold times_nonneg in Ht. unfold caps_free in Hfree. rewrite forallb_concat in Ht, Hfree.
   rewrite mdvd_write_document.
   destruct (concat langs) as [|c rest]; [discriminate|].
